@@ -301,6 +301,8 @@ func rulePairDedup(w *World, r *Report, fn string) {
 		switch {
 		case found:
 			r.add("DISTINCT-PAIR", key, w.Pos(c.Pos()), Discharged, "append guarded by miss-then-insert on the function-level map")
+		case why == "no map lookup with this pair as key guards the append" && packedPairKey(w, f, c, pair) != "":
+			r.add("DISTINCT-PAIR", key, w.Pos(c.Pos()), Violated, "the membership test that guards the append is keyed by one integer computed from both components ("+packedPairKey(w, f, c, pair)+"): a quadkey alone takes up to 62 bits, so distinct pairs collide and the later one is dropped")
 		case why == "no map lookup with this pair as key guards the append" && guardedBySetTest(w, f, c):
 			// some membership test (a map lookup with a key in another representation, a set
 			// helper, slices.Contains) stands in front of the append: not read, no verdict
@@ -625,12 +627,18 @@ func validatedValue(w *World, f *ssa.Function, v ssa.Value, depth int) bool {
 	e := scFor(w)
 	v = resolve(v)
 	if p, ok := v.(*ssa.Phi); ok {
+		n := 0
 		for _, ed := range p.Edges {
+			// a constant merged in at a single exit is the placeholder of a failure path
+			if _, isConst := resolve(ed).(*ssa.Const); isConst {
+				continue
+			}
+			n++
 			if !validatedValue(w, f, ed, depth+1) {
 				return false
 			}
 		}
-		return true
+		return n > 0
 	}
 	failingEdge := func(blk *ssa.BasicBlock) bool {
 		for _, s := range blk.Succs {
@@ -830,12 +838,15 @@ func ruleUpperBoundForm(w *World, r *Report, cl map[*ssa.Function]bool) {
 				if b, ok := v.(*ssa.BinOp); ok && d < 3 {
 					return "(" + shape(b.X, d+1) + b.Op.String() + shape(b.Y, d+1) + ")"
 				}
-				if u, ok := v.(*ssa.UnOp); ok && d < 3 {
-					return u.Op.String() + shape(u.X, d+1)
+				if u, ok := v.(*ssa.UnOp); ok && d < 3 && u.Op == token.SUB {
+					return "-" + shape(u.X, d+1)
 				}
-				return kindOf(v)
+				// the key names the site by the structure of its shift amount only: it must not
+				// change when the operands move into fields, parameters or other variables
+				return "·"
 			}
-			key := fmt.Sprintf("UPPER-BOUND-FORM / %s / scale(%s+1, %s) - 1", scope, kindOf(a.X), shape(call.Call.Args[1], 0))
+			_ = kindOf
+			key := fmt.Sprintf("UPPER-BOUND-FORM / %s / scale(·+1, %s) - 1", scope, shape(call.Call.Args[1], 0))
 			d := resolve(call.Call.Args[1])
 			good := false
 			if k, ok := constInt(d); ok && k >= 0 {
@@ -1375,4 +1386,59 @@ func deref(t types.Type) types.Type {
 		return p.Elem()
 	}
 	return t
+}
+
+// packedPairKey: a map lookup that guards the append is indexed by an integer
+// expression built from both components of the pair with shifts, or, sums or
+// products.
+func packedPairKey(w *World, f *ssa.Function, ap *ssa.Call, pair []ssa.Value) string {
+	if len(pair) != 2 {
+		return ""
+	}
+	out := ""
+	instrs(f, func(in ssa.Instruction) {
+		lk, ok := in.(*ssa.Lookup)
+		if !ok || out != "" || !isIntType(lk.Index.Type()) {
+			return
+		}
+		b, isB := resolve(lk.Index).(*ssa.BinOp)
+		if !isB {
+			return
+		}
+		switch b.Op {
+		case token.OR, token.ADD, token.XOR, token.SHL, token.MUL:
+		default:
+			return
+		}
+		if !(dependsOn(w, b, resolve(pair[0]), 0, map[ssa.Value]bool{}) && dependsOn(w, b, resolve(pair[1]), 0, map[ssa.Value]bool{})) {
+			return
+		}
+		// the lookup decides a branch that dominates the append
+		for _, blk := range f.Blocks {
+			t, fl, ifi := ifSuccs(blk)
+			if ifi == nil {
+				continue
+			}
+			c := resolve(ifi.Cond)
+			if u, ok := c.(*ssa.UnOp); ok && u.Op == token.NOT {
+				c = resolve(u.X)
+			}
+			var tl *ssa.Lookup
+			switch y := c.(type) {
+			case *ssa.Lookup:
+				tl = y
+			case *ssa.Extract:
+				tl, _ = y.Tuple.(*ssa.Lookup)
+			}
+			if tl != lk {
+				continue
+			}
+			for _, s := range []*ssa.BasicBlock{t, fl} {
+				if s == ap.Block() || blockDominatedByEdge(f, blk, s, ap.Block()) {
+					out = shortInstr(b)
+				}
+			}
+		}
+	})
+	return out
 }
